@@ -1,8 +1,8 @@
 #!/bin/bash
 # runs the thorough tier of every claimed property (used with `vp run`); prints one summary line per property
 ./setup.sh >/dev/null || exit 2
-seed=${1:-7}; secs=${2:-300}; workers=${3:-6}
-for p in C01 C02 C04 C05 C06 C07 C08 C09 C10 C11 C12 C13 C14 C15 C16 C17 C18 C19 C20; do
-  VERIF_DIR=$PWD ./vcheck $p --tier thorough --seed $seed --seconds $secs --workers $workers 2>&1 | grep -v "^KNOWN" | tail -4 | cut -c1-400
-  echo "exit=$? property=$p"
+seed=${1:-1}
+for p in ${2:-C01 C02 C04 C05 C06 C07 C08 C09 C10 C11 C12 C13 C14 C15 C16 C17 C18 C19 C20}; do
+  VERIF_DIR=$PWD ./vcheck $p --tier thorough --seed $seed 2>&1 | grep -v "^KNOWN" | tail -4 | cut -c1-400
+  echo "exit=${PIPESTATUS[0]} property=$p"
 done
